@@ -6,6 +6,7 @@
 //! Case lines:
 //!   C08 tvlq <hex>            thrift varint + zig-zag, observed as `num_rows` of a footer; answer `ok <i64> <bytes consumed>` / `ERR:eof`
 //!   C08 tlist <hdr hex> <n>   thrift list header followed by n KeyValue structs, observed as the key/value count
+//!   C08 tfield <hex>          unknown fields after field 4 of a footer: read_field_begin (delta / full id / overflow) + skip of scalar types; `ok` / `ERR`
 //!   C08 bvlq|bzz <hex>        BitReader::get_vlq_int / get_zigzag_vlq_int
 //!   C08 delta <hex>           DeltaBitPackDecoder::<Int64Type>::set_data
 //!   C08 rle <bw> <n> <hex>    RleDecoder::get_batch::<u64> of n values           (search only)
@@ -92,6 +93,16 @@ fn tlist(hdr: &[u8], n: usize) -> String {
     }
 }
 
+fn tfield(fields: &[u8]) -> String {
+    let mut f = FOOTER_HEAD.to_vec();
+    f.extend_from_slice(&[0x16, 0x00, 0x19, 0x0c]); // 3: num_rows 0, 4: row_groups []
+    f.extend_from_slice(fields);
+    match ParquetMetaDataReader::decode_metadata(&f) {
+        Ok(_) => "ok".into(),
+        Err(_) => "ERR".into(),
+    }
+}
+
 // ------------------------------------------------------------------ parquet files
 
 fn validate_batch(b: &RecordBatch) -> Result<(), String> {
@@ -142,6 +153,59 @@ fn read_parquet(v: Vec<u8>) -> String {
     "ERR".into()
 }
 
+/// second and third entry points over the same bytes: the row-oriented record API with the
+/// low-level page readers, and the bloom filters
+fn read_parquet_lowlevel(v: Vec<u8>) -> String {
+    use parquet::file::reader::{FileReader, SerializedFileReader};
+    use parquet::file::serialized_reader::ReadOptionsBuilder;
+    let props = parquet::file::properties::ReaderProperties::builder().set_read_bloom_filter(true).build();
+    let opts = ReadOptionsBuilder::new().with_page_index().with_reader_properties(props).build();
+    let r = match SerializedFileReader::new_with_options(Bytes::from(v), opts) {
+        Ok(r) => r,
+        Err(_) => return "ERR".into(),
+    };
+    let mut pages = 0usize;
+    for g in 0..r.num_row_groups().min(64) {
+        let rg = match r.get_row_group(g) {
+            Ok(x) => x,
+            Err(_) => return "ERR".into(),
+        };
+        for c in 0..rg.num_columns().min(64) {
+            if let Some(bf) = rg.get_column_bloom_filter(c) {
+                let _ = bf.check(&1i32) | bf.check(&"a") | bf.check(&1i64);
+            }
+            if let Ok(mut pr) = rg.get_column_page_reader(c) {
+                for _ in 0..10_000 {
+                    match pr.get_next_page() {
+                        Ok(Some(p)) => pages += p.num_values() as usize & 1,
+                        Ok(None) => break,
+                        Err(_) => break,
+                    }
+                }
+            }
+        }
+    }
+    let mut rows = 0usize;
+    match r.get_row_iter(None) {
+        Err(_) => return "ERR".into(),
+        Ok(it) => {
+            for row in it {
+                match row {
+                    Err(_) => return "ERR".into(),
+                    Ok(row) => {
+                        let s = row.to_string();
+                        rows += 1 + (s.len() & 0) + (pages & 0);
+                        if rows > 1_000_000 {
+                            return "INVALID:rows-unbounded".into();
+                        }
+                    }
+                }
+            }
+        }
+    }
+    format!("ok:{}", rows)
+}
+
 fn sample_batch(rows: usize) -> RecordBatch {
     let i32s: Int32Array = (0..rows).map(|i| if i % 5 == 3 { None } else { Some((i as i32 * 37) % 11 - 3) }).collect();
     let i64s: Int64Array = (0..rows).map(|i| Some(1_000_000_007i64 * i as i64 - 5)).collect();
@@ -170,7 +234,64 @@ fn sample_batch(rows: usize) -> RecordBatch {
     .unwrap()
 }
 
-pub const N_FILES: usize = 8;
+pub const N_FILES: usize = 10;
+
+/// second column set: the array readers / physical types the first one lacks
+/// (float, FLBA decimal + fixed binary, binary, struct, map, Utf8View, dictionary-preserving
+/// strings, narrow and unsigned ints, date / timestamp, float16)
+fn sample_batch_rich(rows: usize) -> RecordBatch {
+    use arrow_array::builder::{MapBuilder, StringBuilder, StringDictionaryBuilder, StringViewBuilder};
+    use arrow_array::types::Int32Type;
+    use arrow_array::{BinaryArray, Date32Array, Decimal128Array, FixedSizeBinaryArray, Float16Array, Float64Array, Int8Array, StructArray, TimestampMillisecondArray, UInt64Array};
+    use arrow_schema::{DataType, Field};
+    let f64s: Float64Array = (0..rows).map(|i| if i % 4 == 1 { None } else { Some(i as f64 * -1.25e100) }).collect();
+    let f16s: Float16Array = (0..rows).map(|i| Some(half::f16::from_f32(i as f32 * 0.5))).collect();
+    let bins: BinaryArray = (0..rows).map(|i| if i % 3 == 2 { None } else { Some(vec![i as u8; i % 4]) }).collect();
+    let fixed = FixedSizeBinaryArray::try_from_iter((0..rows).map(|i| vec![i as u8; 5])).unwrap();
+    let dec = Decimal128Array::from_iter_values((0..rows).map(|i| i as i128 * 1_000_000_000_003 - 7)).with_precision_and_scale(20, 3).unwrap();
+    let dec_small = Decimal128Array::from_iter_values((0..rows).map(|i| i as i128 - 3)).with_precision_and_scale(5, 1).unwrap();
+    let d32: Date32Array = (0..rows).map(|i| Some(i as i32 * 365 - 1000)).collect();
+    let ts = TimestampMillisecondArray::from_iter_values((0..rows).map(|i| i as i64 * 1_000_000_007));
+    let i8s: Int8Array = (0..rows).map(|i| Some((i as i8).wrapping_mul(17))).collect();
+    let u64s: UInt64Array = (0..rows).map(|i| Some(u64::MAX - i as u64)).collect();
+    let x: Int64Array = (0..rows).map(|i| Some(i as i64)).collect();
+    let y: StringArray = (0..rows).map(|i| if i % 2 == 0 { Some("yy") } else { None }).collect();
+    let st = StructArray::from(vec![
+        (Arc::new(Field::new("x", DataType::Int64, true)), Arc::new(x) as ArrayRef),
+        (Arc::new(Field::new("y", DataType::Utf8, true)), Arc::new(y) as ArrayRef),
+    ]);
+    let mut mb = MapBuilder::new(None, StringBuilder::new(), Int32Builder::new());
+    for i in 0..rows {
+        for j in 0..(i % 3) {
+            mb.keys().append_value(format!("k{}", j));
+            mb.values().append_value((i + j) as i32);
+        }
+        mb.append(i % 5 != 4).unwrap();
+    }
+    let mut sv = StringViewBuilder::new();
+    let mut db = StringDictionaryBuilder::<Int32Type>::new();
+    for i in 0..rows {
+        sv.append_value(["short", "a string that is longer than twelve bytes", "", "exactly12byt"][i % 4]);
+        db.append_value(["RED", "GREEN", "BLUE"][i % 3]);
+    }
+    RecordBatch::try_from_iter_with_nullable(vec![
+        ("f64", Arc::new(f64s) as ArrayRef, true),
+        ("f16", Arc::new(f16s) as ArrayRef, false),
+        ("bin", Arc::new(bins) as ArrayRef, true),
+        ("fx", Arc::new(fixed) as ArrayRef, false),
+        ("dec", Arc::new(dec) as ArrayRef, false),
+        ("dec5", Arc::new(dec_small) as ArrayRef, false),
+        ("d", Arc::new(d32) as ArrayRef, true),
+        ("ts", Arc::new(ts) as ArrayRef, false),
+        ("i8", Arc::new(i8s) as ArrayRef, false),
+        ("u64", Arc::new(u64s) as ArrayRef, false),
+        ("st", Arc::new(st) as ArrayRef, false),
+        ("m", Arc::new(mb.finish()) as ArrayRef, true),
+        ("sv", Arc::new(sv.finish()) as ArrayRef, false),
+        ("dict", Arc::new(db.finish()) as ArrayRef, false),
+    ])
+    .unwrap()
+}
 
 /// base files are built once per process
 fn base_file(id: usize) -> Vec<u8> {
@@ -195,9 +316,11 @@ fn build_base_file(id: usize) -> Vec<u8> {
         4 => p.set_compression(Compression::LZ4_RAW).set_dictionary_enabled(false).set_column_encoding("s".into(), Encoding::DELTA_BYTE_ARRAY),
         5 => p.set_compression(Compression::BROTLI(BrotliLevel::try_new(1).unwrap())).set_dictionary_enabled(false).set_column_encoding("s".into(), Encoding::DELTA_LENGTH_BYTE_ARRAY),
         6 => p.set_compression(Compression::UNCOMPRESSED).set_writer_version(WriterVersion::PARQUET_2_0).set_dictionary_enabled(true).set_bloom_filter_enabled(true),
+        8 => p.set_compression(Compression::LZ4).set_dictionary_enabled(true),
+        9 => p.set_compression(Compression::UNCOMPRESSED).set_writer_version(WriterVersion::PARQUET_2_0).set_dictionary_enabled(false),
         _ => p.set_compression(Compression::UNCOMPRESSED).set_dictionary_enabled(false).set_column_encoding("l".into(), Encoding::BYTE_STREAM_SPLIT).set_statistics_enabled(EnabledStatistics::None),
     };
-    let batch = sample_batch(rows);
+    let batch = if id >= 8 { sample_batch_rich(rows) } else { sample_batch(rows) };
     let mut out = Vec::new();
     {
         let mut w = ArrowWriter::try_new(&mut out, batch.schema(), Some(p.build())).unwrap();
@@ -431,6 +554,10 @@ fn run_case(line: &str) -> String {
             let n = arg(3).parse::<usize>().unwrap_or(0);
             guarded(move || tlist(&b, n))
         }
+        "tfield" => {
+            let b = unhex(arg(2));
+            guarded(move || tfield(&b))
+        }
         "bvlq" | "bzz" => {
             let b = unhex(arg(2));
             let zz = t[1] == "bzz";
@@ -484,11 +611,25 @@ fn run_case(line: &str) -> String {
         "pq" => {
             let id = arg(2).trim_start_matches('f').parse::<usize>().unwrap_or(0) % N_FILES;
             let spec = arg(3).to_string();
-            guarded(move || read_parquet(mutate(base_file(id), &spec, &|i| base_file(i % N_FILES))))
+            guarded(move || {
+                let f = mutate(base_file(id), &spec, &|i| base_file(i % N_FILES));
+                // the record API / page readers / bloom filters run on every third offset
+                let off = spec.split(':').nth(1).and_then(|x| x.parse::<usize>().ok()).unwrap_or(0);
+                let a = read_parquet(f.clone());
+                if a.starts_with("INVALID") || off % 3 != 0 {
+                    return a;
+                }
+                let b = read_parquet_lowlevel(f);
+                if b.starts_with("INVALID") { b } else { format!("{}/{}", a, b) }
+            })
         }
         "pqraw" => {
             let b = unhex(arg(2));
-            guarded(move || read_parquet(b))
+            guarded(move || {
+                let a = read_parquet(b.clone());
+                let c = read_parquet_lowlevel(b);
+                if c.starts_with("INVALID") { c } else { format!("{}/{}", a, c) }
+            })
         }
         "variant" => {
             let id = arg(2).trim_start_matches('v').parse::<usize>().unwrap_or(0) % N_VARIANTS;
@@ -591,6 +732,9 @@ fn nt_varint(b: &[u8]) -> &'static str {
 }
 
 fn gen_unit(rng: &mut Rng) -> (String, String, usize) {
+    if rng.chance(1, 10) {
+        return gen_tfield(rng);
+    }
     match rng.below(9) {
         0 | 1 => {
             let (b, c) = gen_varint(rng);
@@ -716,6 +860,145 @@ fn gen_unit(rng: &mut Rng) -> (String, String, usize) {
     }
 }
 
+
+fn zz16(v: i64) -> Vec<u8> {
+    uleb(((v << 1) ^ (v >> 63)) as u64)
+}
+
+/// one unknown field: header byte (delta or full id), scalar payload; `class` for the histogram
+fn gen_field(rng: &mut Rng, out: &mut Vec<u8>) {
+    let ty = *rng.pick(&[1u8, 2, 3, 4, 5, 6, 7, 8, 13, 1, 2, 5]);
+    match rng.below(4) {
+        0 => {
+            out.push(ty); // delta 0: full zig-zag id follows
+            out.extend(zz16(*rng.pick(&[10i64, 100, 127, 128, 32766, 32767, 32768, -1, 65546, 40000])));
+        }
+        _ => out.push(((1 + rng.below(15) as u8) << 4) | ty),
+    }
+    match ty {
+        3 => out.push(rng.next_u64() as u8),
+        4 | 5 | 6 => out.extend(gen_varint(rng).0),
+        7 => out.extend(rng.bytes(8)),
+        8 => {
+            let n = rng.usize(5);
+            out.extend(uleb(n as u64));
+            out.extend(rng.bytes(n));
+        }
+        13 => out.extend(rng.bytes(16)),
+        _ => {}
+    }
+}
+
+fn gen_tfield(rng: &mut Rng) -> (String, String, usize) {
+    let mut b = vec![];
+    // first field jumps beyond the ids FileMetaData knows
+    b.push(0x01);
+    b.extend(zz16(*rng.pick(&[10i64, 20, 32000, 32760, 32766, 32767])));
+    for _ in 0..rng.usize(6) {
+        gen_field(rng, &mut b);
+    }
+    let class = match rng.below(6) {
+        0 => {
+            let k = rng.usize(b.len() + 1);
+            b.truncate(k);
+            "truncated"
+        }
+        1 => {
+            b.push(0xf0 | 1); // delta 15
+            b.push(0xf0 | 2);
+            b.push(0x00);
+            "big-deltas"
+        }
+        2 => {
+            b.push(*rng.pick(&[0x10u8, 0xf0, 0x0e, 0x1f, 0x19, 0x1c, 0x1b])); // stop-with-delta, bad type, containers
+            b.push(0x00);
+            "odd-type"
+        }
+        _ => {
+            b.push(0x00);
+            "stop"
+        }
+    };
+    (format!("C08 tfield {}", hex(&b)), format!("op:tfield fc:{} nt", class), b.len())
+}
+
+/// fixed block of boundary cases, generated in code and run in every tier (dense, not random):
+/// varint length x last byte x filler for every varint reader, every list header byte,
+/// powers of two around the 7-bit group and integer-width boundaries, delta header grid.
+fn dense_units() -> Vec<(String, String, usize)> {
+    let mut v = vec![];
+    for len in 1..=12usize {
+        for last in [0x00u8, 0x01, 0x02, 0x7f] {
+            for fill in [0x80u8, 0xff, 0x81] {
+                let mut b = vec![fill; len - 1];
+                b.push(last);
+                for op in ["tvlq", "bvlq", "bzz"] {
+                    v.push((format!("C08 {} {}", op, hex(&b)), format!("op:{} dense:len{} nt", op, len), b.len()));
+                }
+            }
+        }
+    }
+    for k in [6u32, 7, 8, 13, 14, 15, 20, 21, 22, 27, 28, 29, 30, 31, 32, 33, 34, 35, 36, 41, 42, 43, 48, 49, 50, 55, 56, 57, 62, 63] {
+        for d in [-1i64, 0, 1] {
+            let val = (1u64 << k).wrapping_add(d as u64);
+            let b = uleb(val);
+            for op in ["tvlq", "bvlq", "bzz"] {
+                v.push((format!("C08 {} {}", op, hex(&b)), format!("op:{} dense:pow2 nt", op), b.len()));
+            }
+        }
+    }
+    for b in [uleb(u64::MAX), uleb(u64::MAX - 1), uleb(i64::MAX as u64), uleb(i64::MAX as u64 + 1)] {
+        for op in ["tvlq", "bvlq", "bzz"] {
+            v.push((format!("C08 {} {}", op, hex(&b)), format!("op:{} dense:max nt", op), b.len()));
+        }
+    }
+    // every list header byte; the element count equals the size nibble (short form)
+    for h in 0u16..=255 {
+        let h = h as u8;
+        let n = if h >> 4 == 15 { 0 } else { (h >> 4) as usize };
+        if h >> 4 == 15 {
+            for size in [0u64, 1, 14, 15, 16, 127, 128, (1 << 31) + 0, 1 << 32, u64::MAX] {
+                let mut hd = vec![h];
+                hd.extend(uleb(size));
+                let nn = if size <= 128 { size as usize } else { 0 };
+                v.push((format!("C08 tlist {} {}", hex(&hd), nn), "op:tlist dense:long nt".to_string(), hd.len() + 4 * nn));
+            }
+        } else {
+            v.push((format!("C08 tlist {:02x} {}", h, n), "op:tlist dense:short nt".to_string(), 1 + 4 * n));
+            if n > 0 {
+                v.push((format!("C08 tlist {:02x} {}", h, n - 1), "op:tlist dense:short-missing nt".to_string(), 1 + 4 * n));
+            }
+        }
+    }
+    // delta header grid
+    for bs in [0u64, 1, 127, 128, 129, 256, 384, 1 << 31, 1 << 32, (1 << 63) - 128, 1 << 63, u64::MAX] {
+        for mb in [0u64, 1, 2, 3, 4, 5, 8, 32, 128, 129, 1 << 32, 1 << 63] {
+            let mut b = uleb(bs);
+            b.extend(uleb(mb));
+            b.extend(uleb(5));
+            b.extend(uleb(3));
+            v.push((format!("C08 delta {}", hex(&b)), "op:delta dense:grid nt".to_string(), b.len()));
+        }
+    }
+    // field headers: every delta with a bool field from last id 32760 (checked_add boundary), full ids at i16 boundaries
+    for d in 1u8..=15 {
+        for start in [32752i64, 32753, 32759, 32760, 32766, 32767] {
+            let mut b = vec![0x01];
+            b.extend(zz16(start));
+            b.push((d << 4) | 1);
+            b.push(0x00);
+            v.push((format!("C08 tfield {}", hex(&b)), "op:tfield dense:delta-overflow nt".to_string(), b.len()));
+        }
+    }
+    for id in [-32769i64, -32768, -1, 0, 10, 32767, 32768, 65535, 65536 + 10, 65536 + 5, (1 << 31) + 10, -(1 << 31) + 12] {
+        let mut b = vec![0x02];
+        b.extend(zz16(id));
+        b.push(0x00);
+        v.push((format!("C08 tfield {}", hex(&b)), "op:tfield dense:full-id nt".to_string(), b.len()));
+    }
+    v
+}
+
 /// hand-picked witnesses of the negative theorems, replayed on the real code
 fn witnesses(thorough: bool) -> Vec<(String, String, usize)> {
     let mut v = vec![];
@@ -757,25 +1040,30 @@ fn sweep(args: &Args, rng: &mut Rng) -> Vec<(String, String, usize)> {
         };
         push("xor:0:00".into(), "none", &mut out);
         // single-byte mutations: every offset in the footer, strided in the data pages (quick)
-        let stride = if thorough { 1 } else { 3 };
+        // the files added for type coverage (f8, f9) get a lighter pattern in the quick tier
+        let light = !thorough && id >= 8;
+        let stride = if thorough { 1 } else if light { 5 } else { 3 };
         for off in 0..n {
             let in_footer = off >= fstart;
             if !in_footer && off % stride != (id % stride) {
                 continue;
             }
-            let vals: &[&str] = if thorough || in_footer { &["set:ff", "set:00", "xor:01", "xor:80"] } else { &["set:ff", "xor:01"] };
+            if light && in_footer && off % 3 != id % 3 {
+                continue;
+            }
+            let vals: &[&str] = if thorough || (in_footer && !light) { &["set:ff", "set:00", "xor:01", "xor:80"] } else { &["set:ff", "xor:01"] };
             for v in vals {
                 let (k, x) = v.split_once(':').unwrap();
                 push(format!("{}:{}:{}", k, off, x), if in_footer { "byte-footer" } else { "byte-data" }, &mut out);
             }
         }
         // truncations
-        let tstride = if thorough { 1 } else { 7 };
+        let tstride = if thorough { 1 } else if light { 23 } else { 7 };
         for len in (0..n).step_by(tstride) {
             push(format!("trunc:{}", len), "trunc", &mut out);
         }
         // length-field inflations: varint at every footer offset replaced by a huge varint (footer length fixed up)
-        let istride = if thorough { 1 } else { 2 };
+        let istride = if thorough { 1 } else if light { 6 } else { 2 };
         for off in (fstart..n - 8).step_by(istride) {
             // 2^21-1: big enough to be unrelated to the input, small enough to be granted (no abort)
             push(format!("fsplice:{}:1:ffff7f", off), "inflate-varint-2m", &mut out);
@@ -792,7 +1080,7 @@ fn sweep(args: &Args, rng: &mut Rng) -> Vec<(String, String, usize)> {
             push(format!("le32:{}:{}", n - 8, v), "footer-len", &mut out);
         }
         // page headers in the data region are thrift too: inflate varints there
-        let dstride = if thorough { 1 } else { 5 };
+        let dstride = if thorough { 1 } else if light { 17 } else { 5 };
         for off in (4..fstart).step_by(dstride) {
             push(format!("splice:{}:1:ffff7f", off), "inflate-data-varint", &mut out);
             push(format!("splice:{}:0:ffffffffffffffffffffff", off), "insert-overlong", &mut out);
@@ -871,7 +1159,12 @@ fn main() {
         for (line, tags, n) in witnesses(args.tier == "thorough") {
             run_and_record(&mut w, &mut sink, line, &tags, n);
         }
-        let n = n_cases(&args, 6000, 200000);
+        if args.cases.is_none() {
+            for (line, tags, n) in dense_units() {
+                run_and_record(&mut w, &mut sink, line, &tags, n);
+            }
+        }
+        let n = n_cases(&args, 4000, 200000);
         for _ in 0..n {
             let (line, tags, len) = gen_unit(&mut rng);
             run_and_record(&mut w, &mut sink, line, &tags, len);
